@@ -6,7 +6,7 @@
 #   rsync -a --delete /verif/ /tmp/shadow/verif/ ; git -C /tmp/shadow/repo pull (or re-clone)
 patch=$(readlink -f "$1"); pid=$2; tier=${3:-quick}
 unshare -m bash -c "
-  mount --bind /tmp/shadow/repo /repo && mount --bind /tmp/shadow/verif /verif || exit 2
+  mount --bind ${SHADOW:-/tmp/shadow}/repo /repo && mount --bind ${SHADOW:-/tmp/shadow}/verif /verif || exit 2
   cd /repo || exit 2
   git checkout -q -- . ; git apply '$patch' || { echo 'patch does not apply'; exit 2; }
   cd /verif && ./check $pid --tier $tier; rc=\$?
